@@ -316,6 +316,30 @@ def check_case(case):
         for key in broker.missing_requirements:
             if index.get(key) is None:
                 V("accounting:recorded-under-foreign-key", "keys inside the graph", {"missing_key": _kname(key, index)})
+        # (5) two-step history in ONE process: the same component objects, the faults healed, a fresh broker - a
+        # failure must not outlive the evaluation it happened in (no component stays disabled / ignored / remembered)
+        if case.get("heal") and case["shape"] in SHAPES():
+            first = (sum(1 for c in g.nodes if c in broker), len(recorded), len(broker.missing_requirements), len(g.raised))
+            desc["nodes"] = SHAPES()[case["shape"]]
+            del g.log[:]
+            del g.raised[:]
+            b2 = g.make_broker()
+            try:
+                dr.run(g.explicit_graph(), b2)
+            except BaseException as ex:
+                V("history:healed-evaluation", "dr.run returns", "%s: %s" % (type(ex).__name__, ex))
+            else:
+                R2 = G.ref_eval(desc, names)
+                for i in range(n):
+                    if R2[i].present and R2[i].status == "fired" and g.nodes[i] not in b2:
+                        V("history:healed-evaluation", {"node": i, "present": True}, {"node": i, "absent": True})
+                    n_inv = sum(1 for ev in g.log if ev[0] == "invoke" and ev[1] == i)
+                    if nodes[i]["t"] != "rp" and n_inv != R2[i].invocations:
+                        V("history:healed-evaluation", {"node": i, "invocations": R2[i].invocations}, {"node": i, "invocations": n_inv})
+                if b2.exceptions or b2.missing_requirements:
+                    V("history:healed-evaluation", "nothing recorded", {"exceptions": len(b2.exceptions), "missing": len(b2.missing_requirements)})
+            case["_outcome"] = "values=%d:recorded=%d:missing=%d:raised=%d:healed" % first
+            return vio
         case["_outcome"] = "values=%d:recorded=%d:missing=%d:raised=%d" % (
             sum(1 for c in g.nodes if c in broker), len(recorded), len(broker.missing_requirements), len(g.raised))
         return vio
@@ -369,6 +393,8 @@ def run_unit(unit, tier):
                 placement = list(zip(where, kinds))
                 nodes = apply_faults(base, placement)
                 case = {"shape": unit["shape"], "nodes": nodes, "store_skips": unit["store_skips"], "observer": unit["observer"]}
+                if unit["observer"] == "none" and 1 <= k <= 2:
+                    case["heal"] = True
                 try:
                     vio = check_case(case)
                     fired = None
